@@ -75,7 +75,25 @@ def g_dv(v):
         return "(VSet %s)" % G.g_list([g_dv(x) for x in v])
     if isinstance(v, dict):
         return "(VDict %s)" % G.g_list(["(%s, %s)" % (g_dv(k), g_dv(x)) for k, x in v.items()])
+    if isinstance(v, bool) or v is None or isinstance(v, str):
+        return G.g_val(v)
+    if isinstance(v, int):
+        return "(VInt %s)" % g_Z(v)
+    if isinstance(v, float):
+        if not math.isfinite(v):
+            raise ValueError("non-finite float is outside the value universe")
+        if v == 0.0 and math.copysign(1.0, v) < 0:
+            return "(VFlt FNegZero)"
+        n, d = v.as_integer_ratio()
+        return "(VFlt (F %s %s%%positive))" % (g_Z(n), hex(d) if d >= 2 ** 64 else str(d))
     return G.g_val(v)
+
+
+def g_Z(z):
+    """big literals in hexadecimal: coqc parses decimal literals in quadratic time"""
+    if abs(z) >= 2 ** 64:
+        return "(-%s)" % hex(-z) if z < 0 else hex(z)
+    return "(%d)" % z if z < 0 else "%d" % z
 
 
 def g_outcome(o):
@@ -173,6 +191,36 @@ def dv_same(a, b):
     if isinstance(a, Opaque):
         return a.tag == b.tag
     return a == b
+
+
+def norm_matches(result, original):
+    """result == norm(original), type-exact, where the list made from a set may be in any order"""
+    if isinstance(original, (set, frozenset)):
+        if type(result) is not list or len(result) != len(original):
+            return False
+        left = list(result)
+        for x in original:
+            hit = [i for i, y in enumerate(left) if norm_matches(y, x)]
+            if not hit:
+                return False
+            left.pop(hit[0])
+        return True
+    if isinstance(original, (list, tuple)):
+        return type(result) is list and len(result) == len(original) and all(norm_matches(r, o) for r, o in zip(result, original))
+    if isinstance(original, dict):
+        if type(result) is not dict or len(result) != len(original):
+            return False
+        for k, x in original.items():
+            hit = [kk for kk in result if dv_same(k, kk)]
+            if not hit or not norm_matches(result[hit[0]], x):
+                return False
+        return True
+    if isinstance(original, Inst):
+        if not isinstance(result, Inst) or result.cid != original.cid or len(result.fields) != len(original.fields):
+            return False
+        fr = dict(result.fields)
+        return all(k in fr and norm_matches(fr[k], x) for k, x in original.fields)
+    return dv_same(result, original)
 
 
 def dv_norm(v):
